@@ -13,12 +13,14 @@ From Curies.model Require Export Query Reconcile.
 Inductive pv := PNone | PBool (b : bool) | PStr (s : str) | PTup (l : list pv) | PList (l : list pv) | PRec (r : record)
 | PDict (d : list (str * pv))           (* a dict with string keys, in insertion order *)
 | PNewConv (rs : list record)
-| PInt (n : N).                          (* a non-negative integer: lengths and the constants they are compared with *)          (* the result of Converter(records): the constructor itself is Conv.mk_conv, not translated *)
+| PInt (n : N)
+| PTrie (t : trie str).                   (* StringTrie(<dict>) *)                          (* a non-negative integer: lengths and the constants they are compared with *)          (* the result of Converter(records): the constructor itself is Conv.mk_conv, not translated *)
 
 Inductive sdict := DPrefixMap | DSynonymToPrefix | DReversePrefixMap | DPatternMap.
 Inductive attr := APrefix | AIdentifier | AUriPrefix | APrefixSynonyms | AUriPrefixSynonyms | APattern | AAllPrefixes | AAllUriPrefixes.
 
 Inductive cmpop := CLt | CLe | CGt | CGe.
+Inductive sattr := SaDelimiter | SaRecords | SaPrefixMap | SaSynonymToPrefix | SaReversePrefixMap | SaTrie | SaPatternMap.
 Inductive pexp :=
 | EVar (x : nat) | ENone | EBool (b : bool) | EStr (s : str)
 | ESelfDelim | ESelfRecords
@@ -46,6 +48,9 @@ Inductive pexp :=
 | ESetUpd (l add : pexp) (remove : pexps)  (* sorted(set(l).union({add}).difference({remove...})) *)
 | EKeysInterValues (d : pexp)              (* set(d).intersection(d.values()) *)
 | ENewConv (records : pexp)                (* Converter(records) *)
+| ESortedByPrefix (records : pexp)         (* sorted(records, key=lambda r: r.prefix) *)
+| ETrieOf (d : pexp)                       (* StringTrie(d) for a dict of strings *)
+| ESelfDict (d : sdict)                    (* self.<d> as a value *)
 | EProduct (a b : pexp)                    (* itertools.product(a, b) of two lists / sets given as lists: pairs, a-major *)
 | EChain (l : pexps)                       (* itertools.chain(l1, l2, ...) of lists, consumed by a for loop: their concatenation *)
 | EStar (e : pexp)                         (* *e, inside an argument list only *)
@@ -68,6 +73,7 @@ Inductive pstmt :=
 | SRecSet (x : nat) (a : attr) (e : pexp)     (* x.<attribute> = e for a Record held in the local x *)
 | SSelfSet (d : sdict) (k v : pexp)           (* self.<d>[k] = v : only the state-changing interpreter (execm) gives it a meaning *)
 | STrieSet (k v : pexp)                       (* self.trie[k] = v *)
+| SSelfAttr (a : sattr) (e : pexp)            (* self.<attribute> = e, in __init__ *)
 | SPass
 with pblock := BNil | BCons (s : pstmt) (r : pblock).
 
@@ -93,6 +99,7 @@ Definition truthy (v : pv) : bool :=
   | PDict [] => false | PDict _ => true
   | PNewConv _ => true
   | PInt n => negb (N.eqb n 0)
+  | PTrie _ => true
   end.
 Definition py_len (v : pv) : option N :=
   match v with
@@ -345,6 +352,17 @@ Fixpoint eval (e : pexp) : eres :=
       | EV (PDict dd) => match as_sdict_pv dd with Some m => EV (pstrs (inter (map fst m) (map snd m))) | None => ES end
       | EV _ => ES
       | r => r end
+  | ESortedByPrefix e =>
+      match eval e with
+      | EV (PList l) | EV (PTup l) => match as_recs_pv l with Some rs => EV (PList (map PRec (sort_records rs))) | None => ES end
+      | EV _ => ES
+      | r => r end
+  | ETrieOf e =>
+      match eval e with
+      | EV (PDict dd) => match as_sdict_pv dd with Some m => EV (PTrie (trie_of m)) | None => ES end
+      | EV _ => ES
+      | r => r end
+  | ESelfDict d => EV (PDict (map (fun kv => (fst kv, PStr (snd kv))) (sdict_of c d)))
   | ENewConv e =>
       match eval e with
       | EV (PList l) => match as_recs_pv l with Some rs => EV (PNewConv rs) | None => ES end
@@ -503,7 +521,7 @@ Fixpoint exec (cur : option err) (s : pstmt) (env : list pv) {struct s} : out :=
           | EX x' => ORaise x'
           | ES => OStuck end
       | _ => OStuck end
-  | SSelfSet _ _ _ | STrieSet _ _ => OStuck        (* the read-only interpreter does not change the converter *)
+  | SSelfSet _ _ _ | STrieSet _ _ | SSelfAttr _ _ => OStuck        (* the read-only interpreter does not change the converter *)
   | SPass => ONorm env
   end
 with exec_block (cur : option err) (b : pblock) (env : list pv) {struct b} : out :=
@@ -540,6 +558,28 @@ Fixpoint for_loopm (step : pv -> list pv -> conv -> outm) (l : list pv) (env : l
   match l with
   | [] => MNorm env c
   | v :: r => match step v env c with MNorm env' c' => for_loopm step r env' c' | o => o end
+  end.
+
+Definition set_attr (c : conv) (a : sattr) (v : pv) : option conv :=
+  match a, v with
+  | SaDelimiter, PStr d => Some {| delim := d; recs := recs c; pmap := pmap c; synmap := synmap c; rpmap := rpmap c; ctrie := ctrie c; patmap := patmap c |}
+  | SaRecords, PList l => match as_recs_pv l with
+                          | Some rs => Some {| delim := delim c; recs := rs; pmap := pmap c; synmap := synmap c; rpmap := rpmap c; ctrie := ctrie c; patmap := patmap c |}
+                          | None => None end
+  | SaPrefixMap, PDict d => match as_sdict_pv d with
+                            | Some m => Some {| delim := delim c; recs := recs c; pmap := m; synmap := synmap c; rpmap := rpmap c; ctrie := ctrie c; patmap := patmap c |}
+                            | None => None end
+  | SaSynonymToPrefix, PDict d => match as_sdict_pv d with
+                                  | Some m => Some {| delim := delim c; recs := recs c; pmap := pmap c; synmap := m; rpmap := rpmap c; ctrie := ctrie c; patmap := patmap c |}
+                                  | None => None end
+  | SaReversePrefixMap, PDict d => match as_sdict_pv d with
+                                   | Some m => Some {| delim := delim c; recs := recs c; pmap := pmap c; synmap := synmap c; rpmap := m; ctrie := ctrie c; patmap := patmap c |}
+                                   | None => None end
+  | SaPatternMap, PDict d => match as_sdict_pv d with
+                             | Some m => Some {| delim := delim c; recs := recs c; pmap := pmap c; synmap := synmap c; rpmap := rpmap c; ctrie := ctrie c; patmap := m |}
+                             | None => None end
+  | SaTrie, PTrie t => Some {| delim := delim c; recs := recs c; pmap := pmap c; synmap := synmap c; rpmap := rpmap c; ctrie := t; patmap := patmap c |}
+  | _, _ => None
   end.
 
 Section ExecM.
@@ -581,6 +621,11 @@ Fixpoint execm (s : pstmt) (env : list pv) (c : conv) {struct s} : outm :=
       | EV _ => MStuck
       | EX x' => MRaise x'
       | ES => MStuck end
+  | SSelfAttr a e =>
+      match eval c (callm c) env e with
+      | EV v => match set_attr c a v with Some c' => MNorm env c' | None => MStuck end
+      | EX x' => MRaise x'
+      | ES => MStuck end
   | SPass => MNorm env c
   | SUnpack _ _ | SReraise | STry _ _ _ _ | SAppend _ _ | SSetItem _ _ _ | SRecAppend _ _ _ | SRecSort _ _ | SRecSet _ _ _ | SForUnpack _ _ _ => MStuck
   end
@@ -618,6 +663,25 @@ Definition inj_bool (b : bool) : eres := EV (PBool b).
 (* functions that are not in the table: what the SPARQL graph of the mapping service holds besides its converter *)
 Definition f_oracle_query_predicates : nat := 1000.     (* self.query_predicates, as a list *)
 Definition f_oracle_is_valid_uri : nat := 1001.         (* rdflib's _is_valid_uri *)
+
+Definition f_oracle_dup_uri_prefixes : nat := 1003.     (* _get_duplicate_uri_prefixes: read for its truthiness *)
+Definition f_oracle_dup_prefixes : nat := 1004.         (* _get_duplicate_prefixes *)
+Definition f_oracle_pattern_map : nat := 1005.          (* _get_pattern_map (a dict comprehension) *)
+Definition f_oracle_strip : nat := 1002.                (* str.strip() without arguments *)
+(* <compiled pattern>.<method>(s), read for its truthiness: pattern 0 = NCNAME_RE, 1 = LOCAL_UNIQUE_IDENTIFIER_RE; method 0 = fullmatch, 1 = match *)
+Definition f_oracle_re (pat m : nat) : nat := 1010 + 2 * pat + m.
+
+(* a table run in which some function ids are answered by an oracle (what the translated code calls but is not itself translated:
+   regular-expression matching, str.strip, rdflib helpers) *)
+Fixpoint run_with (oracle : nat -> list pv -> option eres) (fuel : nat) (tbl : list fn) (c : conv) (f : nat) (args : list pv) : eres :=
+  match oracle f args with
+  | Some r => r
+  | None => match fuel with
+            | O => ES
+            | S k => match nth_error tbl f with Some fd => run_fn c (run_with oracle k tbl c) fd args | None => ES end
+            end
+  end.
+Arguments run_with : simpl never.
 
 (* the table entry of a function the translator could not translate: stuck on every call *)
 Definition untranslated : fn := {| fn_nparams := 0; fn_nlocals := 0; fn_body := BCons SReraise BNil |}.
